@@ -211,11 +211,30 @@ class GensymModel(Model):
             st.log.append(("acquire",))
             return [Path(st, "normal", NONE)]
         if src == "_gensym_lock.release":
-            st.log.append(("release", st.globals["_gensym_counter"]))
-            st.ghost["held"] = False
+            self.release(ex, st)
             return [Path(st, "normal", NONE)]
         if src in ("hy.mangle", "'_hy_gensym_{}_{}'.format", "hy.models.Symbol", "g.startswith", "len"):
             return [Path(st, "normal", Obj("opaque:" + src))]
+        return NotImplemented
+
+    def release(self, ex, st):
+        st.log.append(("release", st.globals["_gensym_counter"]))
+        st.ghost["held"] = False
+        # once the lock is released other threads may change the counter: whatever is read from now on is arbitrary
+        st.globals["_gensym_counter"] = ex.fresh(z3.IntSort(), "counter_after_release")
+
+    def with_enter(self, ex, st, cm, node):
+        # `with _gensym_lock:` = acquire on entry, release on every exit
+        if isinstance(cm, Obj) and cm.kind == "name:_gensym_lock":
+            st.ghost["held"] = True
+            st.globals["_gensym_counter"] = ex.fresh(z3.IntSort(), "counter_at_acquire")
+            st.ghost["at_acquire"] = st.globals["_gensym_counter"]
+            st.log.append(("acquire",))
+
+            def exit_fn(ex_, st2, exc):
+                self.release(ex_, st2)
+                return [Path(st2, "normal", False)]
+            return [Path(st, "normal", NONE)], exit_fn
         return NotImplemented
 
     def getattr(self, ex, st, obj, name, node):
@@ -267,7 +286,11 @@ def c38(chk, prefix="gensym"):
         paths = None
         why = str(e)
     if paths is None:
-        crit = [s for s in fn.body if isinstance(s, (ast.Expr, ast.Try)) and not (isinstance(s, ast.Expr) and isinstance(s.value, ast.Constant))][:2]
+        # the critical section: everything up to the last statement that mentions the lock or the counter
+        body = [s_ for s_ in fn.body if not (isinstance(s_, ast.Expr) and isinstance(s_.value, ast.Constant))]
+        last = max((i for i, s_ in enumerate(body)
+                    if any(isinstance(n_, ast.Name) and n_.id in ("_gensym_lock", "_gensym_counter") for n_ in ast.walk(s_))), default=-1)
+        crit = body[:last + 1]
         st = State()
         st.globals["_gensym_counter"] = z3.Int("counter0")
         st.ghost["held"] = False
@@ -289,8 +312,12 @@ def c38(chk, prefix="gensym"):
             while n_ is None and fr is not None:
                 n_ = fr.vars.get("n")
                 fr = fr.parent
-            ex.oblige(f"n == counter at acquire + 1 == counter at release", p.st,
-                      z3.And(n_ == p.st.ghost["at_acquire"] + 1, [e for e in p.st.log if e[0] == "release"][-1][1] == n_))
+            rel = [e for e in p.st.log if e[0] == "release"]
+            if n_ is None or "at_acquire" not in p.st.ghost or not rel:
+                ex.oblige(f"n == counter at acquire + 1 == counter at release", p.st, z3.BoolVal(False))
+            else:
+                ex.oblige(f"n == counter at acquire + 1 == counter at release", p.st,
+                          z3.And(n_ == p.st.ghost["at_acquire"] + 1, rel[-1][1] == n_))
     ex.oblige("vacuity: a path through the critical section exists", st, z3.BoolVal(len(paths) >= 1))
     discharge(chk, prefix, ex)
     chk.trust("threading.Lock gives mutual exclusion; _gensym_counter is reached only through gensym (syntactic frame check below)")
